@@ -533,14 +533,26 @@ impl<'a> Gen<'a> {
     }
 
     fn eq_set(&mut self) {
-        let n = self.r.below(4);
-        let a: Vec<Vec<Word>> = (0..n).map(|_| (0..self.r.below(3)).map(|_| self.r.range(0, 4)).collect()).collect();
+        // mostly tiny sets; now and then dozens of elements (distinct values, so that repeats are deliberate)
+        let big = !tiny() && self.r.chance(0.08);
+        let n = if big { 15 + self.r.below(50) } else { self.r.below(4) };
+        let a: Vec<Vec<Word>> = (0..n)
+            .map(|i| if big { vec![i as Word, self.r.range(0, 4)] } else { (0..self.r.below(3)).map(|_| self.r.range(0, 4)).collect() })
+            .collect();
         let mut b = a.clone();
         match self.r.below(4) {
             0 => self.r.shuffle(&mut b),
             1 => {
-                if let Some(x) = b.first().cloned() {
-                    b.push(x)
+                // a repeated element: the same set, more list entries (sometimes replacing another element:
+                // same number of entries, different set)
+                if !b.is_empty() {
+                    let x = b[self.r.below(b.len())].clone();
+                    if b.len() >= 2 && self.r.chance(0.4) {
+                        let j = self.r.below(b.len());
+                        b[j] = x;
+                    } else {
+                        b.push(x);
+                    }
                 }
             }
             2 => {
